@@ -55,7 +55,7 @@ using ref::Vec;
 namespace {
 
   constexpr R u = 2.220446049250313e-16L;
-  constexpr R KK = 1024;
+  constexpr R KK = 2048;
 
   using Pt = std::array<double, 3>;
 
